@@ -25,7 +25,7 @@ SCEN_SRC = $(wildcard scen/*.c)
 SCEN_NAMES = $(filter-out oracle wgl flavor_glue,$(basename $(notdir $(SCEN_SRC))))
 SCEN_OBJS = $(patsubst %,$(BUILD)/s-%.o,$(SCEN_NAMES)) \
 	$(BUILD)/s-glue-memb.o $(BUILD)/s-glue-mb.o $(BUILD)/s-glue-qsbr.o $(BUILD)/s-glue-bp.o \
-	$(BUILD)/s-uatomic-builtins.o
+	$(BUILD)/s-uatomic-builtins.o $(BUILD)/s-uatomic-c99.o
 
 REPO_DEPS = $(wildcard $(REPO)/src/*.c $(REPO)/src/*.h $(REPO)/include/urcu/*.h \
 	$(REPO)/include/urcu/*/*.h $(REPO)/include/*.h)
@@ -71,6 +71,8 @@ $(BUILD)/s-glue-bp.o: scen/flavor_glue.c scen/flavor.h $(REPO_DEPS) redef.txt
 	$(CC) $(SCENFLAGS) -DGLUE_BP -c $< -o $@ && $(POSTPROC_SCEN) $@
 $(BUILD)/s-uatomic-builtins.o: scen/uatomic.c $(wildcard scen/*.h) usim/usim.h $(REPO_DEPS) redef.txt
 	$(CC) $(SCENFLAGS) -DUAT_BUILTINS -DCONFIG_RCU_USE_ATOMIC_BUILTINS -c $< -o $@ && $(POSTPROC_SCEN) $@
+$(BUILD)/s-uatomic-c99.o: scen/uatomic.c $(wildcard scen/*.h) usim/usim.h $(REPO_DEPS) redef.txt
+	$(CC) $(SCENFLAGS) -DUAT_C99 -std=gnu99 -c $< -o $@ && $(POSTPROC_SCEN) $@
 $(BUILD)/s-%.o: scen/%.c $(wildcard scen/*.h) usim/usim.h $(REPO_DEPS) redef.txt
 	$(CC) $(SCENFLAGS) -c $< -o $@ && $(POSTPROC_SCEN) $@
 
